@@ -86,6 +86,7 @@ def pair(lines):
 class Gen:
     def __init__(self, seed):
         self.r = random.Random(seed)
+        self.rbig = random.Random(seed * 7919 + 17)      # separate stream: the large-n cases do not shift the others
 
     def rw(self):
         c = self.r.random()
@@ -170,6 +171,11 @@ class Gen:
             add('Mixture.draw', 'draw.MixtureLaplace f64 %s %s %s %s' % (LF(wts), LF(mus), LF(bs), L(ws1 + [rw()])))
             n = r.randrange(0, 4)
             add('Mixture.sample', 'sample.MixtureLaplace f64 %s %s %s %d %s' % (LF(wts), LF(mus), LF(bs), n, L(ws1 + [rw() for _ in range(2 * n)])))
+            if self.rbig.random() < 0.06:
+                # large n: `sample(n)` must stay "n index flips, then the n component draws IN THAT ORDER" (seeded change C11-7:
+                # a batched fast path for n >= 256 grouped the draws by component)
+                nb = self.rbig.choice([255, 256, 300, 700])
+                add('Mixture.sample', 'sample.MixtureLaplace f64 %s %s %s %d %s' % (LF(wts), LF(mus), LF(bs), nb, L(ws1 + [self.rbig.getrandbits(64) for _ in range(2 * nb)])))
             kk = r.choice([0.01, 0.1, 0.5, 1.0, 2.0, 5.0, 30.0, 1000.0, pos()])
             vm = ws1 + [rw() for _ in range(200)]
             add('VonMises.draw', 'draw.VonMises f64 %s %s %s' % (fx(r.uniform(0, 6.28)), fx(kk), L(vm)))
